@@ -38,6 +38,9 @@ type Program struct {
 	// form of anchor functions: calls of small helpers of the same package
 	// are inlined, except calls of the functions listed here (key suffixes).
 	InlineKeep []string
+
+	refCount map[*types.Func]int
+	refDone  map[string]bool
 }
 
 // Func is a function or method declared in the repository.
